@@ -66,6 +66,13 @@ def check_c11(ctx, sched, now, task_pl):
                             f"same invocation", {"policy": name})
             elif st == "RUNNING":
                 fin = now + _us(pt.remaining_time)
+                if ctx.variance and ps.start_time is not None and ps.runtime is not None:
+                    # "planned or actual finish": an overrun drawn from --runtime_variance is not part
+                    # of any plan, so only the planned finish (start + strategy runtime) binds
+                    planned = ps.start_time + ps.runtime
+                    if planned < fin:
+                        ctx.probe("c11_running_parent_hidden_overrun")
+                        fin = planned
                 ctx.probe("c11_running_parent")
                 if start < fin:
                     ctx.violate("C11", "child_before_running_parent_end",
